@@ -57,9 +57,9 @@ def holds(cond, observed):
     if 'names' in cond:
         return isinstance(x, list) and sorted(e.get('name') if isinstance(e, dict) else e for e in x) == sorted(cond['names'])
     if 'contains_name' in cond:
-        return isinstance(x, list) and any((e.get('name') if isinstance(e, dict) else e) == cond['contains_name'] for e in x)
+        return isinstance(x, list) and any((e.get('name', e.get('label')) if isinstance(e, dict) else e) == cond['contains_name'] for e in x)
     if 'lacks_name' in cond:
-        return isinstance(x, list) and not any((e.get('name') if isinstance(e, dict) else e) == cond['lacks_name'] for e in x)
+        return isinstance(x, list) and not any((e.get('name', e.get('label')) if isinstance(e, dict) else e) == cond['lacks_name'] for e in x)
     if 'distinct_gt' in cond:
         return isinstance(x, list) and len({json.dumps(e, sort_keys=True) for e in x}) > cond['distinct_gt']
     if cond.get('is_null'):
